@@ -108,6 +108,7 @@ class Scheduler(object):
         self.drain = 0
         self.stalled = {}          # host -> until T
         self.held = []
+        self.dark = {}             # cid -> time since which the path is dark (for keep-alive)
 
     # hooks for property-specific schedulers --------------------------------------
     def extra_choices(self, items):
@@ -153,6 +154,23 @@ class Scheduler(object):
                     # (TcpConnection buffers without limit; see DESIGN 2.7)
                     self.held = []
                     return [dt, 'heal']
+        # TCP keep-alive: a connection whose path has been dark for longer than the socket's keep-alive
+        # budget is reset by the kernel of every endpoint that has SO_KEEPALIVE set
+        if self.step % 16 == 0:
+            dark = self.dark
+            for cid, c in net.conns.items():
+                isdark = w.blocked(c.chost, c.shost) or (c.p_cs.held and c.p_sc.held)
+                if isdark:
+                    dark.setdefault(cid, w.T)
+                else:
+                    dark.pop(cid, None)
+            for cid in list(dark):
+                if cid not in net.conns:
+                    del dark[cid]
+            due = net.keepalive_due(dark, w.T)
+            if due:
+                w.probe('keepalive_reset')
+                return [0.0, 'rst', due[0][0], due[0][1]]
         # a fork child is a running process: it is not stalled for longer than child_max_delay
         for h in w.hosts:
             ch = h.forkemu.children
